@@ -193,7 +193,7 @@ class CHECK(vlib.Check):
         # ---- 5. numeric range lists
         for _ in range(500 if quick else 15000):
             p = gen_range_pattern(rng)
-            subs = rng.sample(NUM_SUBJECTS, 10) + [str(rng.choice([0, 1, 5, 9, 10, 20, 21, 100, 4294967295, 4294967296]) + rng.choice([-1, 0, 1]) if True else "")]
+            subs = rng.sample(NUM_SUBJECTS, 10) + [str(rng.choice([0, 1, 5, 9, 10, 20, 21, 100, 4294967295, 4294967296]) + rng.choice([-1, 0, 1]))]
             case("range", ["sp:%s:?" % hx(p)] + ["m:" + hx(s) for s in subs if not s.startswith("-1")])
 
         # ---- 6. one object re-used for a sequence of patterns (and pooled matchers); state must not leak
